@@ -1,7 +1,9 @@
 #!/bin/sh
-# rebuild.sh — extraction + driver + harness (against /repo's working tree), without running a check
+# rebuild.sh — extraction + driver + harness (against /repo's working tree), without running a check.
+# NOTE: when copying .v files in from a scratch tree do not preserve mtimes (rsync -rc --no-times): a source
+# older than a stale .vo is not rebuilt by make, and the driver is then extracted from the old model.
 export GOFLAGS=-mod=mod GOPROXY=off GOSUMDB=off GOTOOLCHAIN=local
-cd /verif/coq && make -k -j16 theories/Spec.vo theories/IO.vo theories/Queries.vo 2>&1 | grep -A3 Error
+cd /verif/coq && make -k -j16 theories/Model.vo theories/Spec.vo theories/IO.vo theories/Queries.vo 2>&1 | grep -A3 Error
 cd /verif/ocaml && coqc -Q ../coq/theories Alliance ../coq/theories/Extract.v > /dev/null && ocamlfind ocamlopt -w -a model.mli model.ml main.ml -o driver || exit 1
 rm -f /verif/build/driver.stamp
 cd /verif/harness && ./mkmod.sh && go test -c -vet=off -o /verif/build/harness.test . 2>&1 | grep -v "^WARNING"
